@@ -862,7 +862,7 @@ func edgeInfeasible(c *Ctx, fn *ssa.Function, pred, succ *ssa.BasicBlock) bool {
 // "optimisation" pass over the descriptors would escape the constructor templates.)
 func c02i(c *Ctx) {
 	eff := c.Eff()
-	for _, typ := range []string{"jump", "breakContext", "leafExpressionBranch", "conditionDestination", "switchBranch", "switchCaseBranch"} {
+	for _, typ := range []string{"jump", "breakContext", "leafExpressionBranch", "conditionDestination", "switchBranch", "switchCaseBranch", "chunk"} {
 		bad := ""
 		for _, fn := range c.W.FuncsOf("emitter") {
 			if isTestFunc(c.W, fn) {
@@ -870,6 +870,10 @@ func c02i(c *Ctx) {
 			}
 			for k, site := range eff.sites[fn] {
 				if strings.HasPrefix(k, "emitter."+typ+".") {
+					// the one reviewed write: the chunk being cut now returns to the chunk made for its rest
+					if typ == "chunk" && k == "emitter.chunk.returnID" && c.W.FuncKey(fn) == "(*emitter.chunk).splitChunkForBranch" {
+						continue
+					}
 					bad = c.W.FuncKey(fn) + " writes " + k + " at " + c.W.Pos(site.Pos())
 				}
 			}
